@@ -296,3 +296,26 @@ def index_at(a, pattern, sep, b):
     s = a + sep + b
     pre = re.fullmatch(pattern, a) is not None
     return (not pre) or (s.find(sep) == len(a) and s.partition(sep) == (a, sep, b))
+
+
+# ---------------------------------------------------------------------------------------------
+# XSD 1.1 Part 2, appendix E.3.4 timeOnTimeline (seconds since 0001-01-01T00:00:00, proleptic
+# Gregorian, year 0 = 1 BCE), here in integer nanoseconds; a missing timezone counts as UTC.
+# ---------------------------------------------------------------------------------------------
+def days_in_months_before(y, m):
+    return (ite(m > 1, 31, 0) + ite(m > 2, dim(y, 2), 0) + ite(m > 3, 31, 0) + ite(m > 4, 30, 0)
+            + ite(m > 5, 31, 0) + ite(m > 6, 30, 0) + ite(m > 7, 31, 0) + ite(m > 8, 31, 0)
+            + ite(m > 9, 30, 0) + ite(m > 10, 31, 0) + ite(m > 11, 30, 0))
+
+
+def time_on_timeline(y, m, d, h, mi, s, ns, off):
+    yr = y - 1
+    tz = ite(off is None, 0, off)
+    secs = (31536000 * yr + 86400 * (yr // 400 - yr // 100 + yr // 4) + 86400 * days_in_months_before(y, m)
+            + 86400 * (d - 1) + 3600 * h + 60 * mi + s - 60 * tz)
+    return secs * 1000000000 + ns
+
+
+def time_of_day_on_timeline(h, mi, s, ns, off):
+    tz = ite(off is None, 0, off)
+    return (3600 * h + 60 * mi + s - 60 * tz) * 1000000000 + ns
